@@ -50,7 +50,8 @@ ALPHA = {
     'build': 8, 'var': 1, 'cube': 1, 'apply': 5, 'ite': 1, 'quantify': 2,
     'let_const': 1, 'let_rename': 1, 'let_compose': 2, 'add_expr': 2,
     'drop': 4, 'gc': 3, 'swap': 2, 'sift': 1, 'reorder_to': 1,
-    'declare': 2, 'add_var': 3, 'full': 2, 'incref': 1, 'decref': 1, 'funcop': 2, 'traverse': 1,
+    'declare': 2, 'add_var': 3, 'full': 2, 'xcopy_vars': 5, 'peer': 4,
+    'xcopy': 3, 'incref': 1, 'decref': 1, 'funcop': 2, 'traverse': 1,
     'file_roundtrip': 4, 'repeat': 2,
 }
 
